@@ -134,11 +134,11 @@ func c05Mutations(kind string) []string {
 	common := []string{"relayer", "turnstone"}
 	switch kind {
 	case "logic":
-		return append(common, "contract", "payload", "fee0", "fee1", "fee2", "sender", "id", "deadline")
+		return append(common, "contract", "payload", "fee0", "fee1", "fee2", "sender", "senderHead", "senderTruncate", "id", "deadline")
 	case "valset":
 		return append(common, "valAddr", "valPower", "valsetID", "valAdd", "valDrop", "valSwap", "gas")
 	case "deploy":
-		return append(common, "deployer", "bytecode", "fee0", "fee1", "fee2", "sender", "id", "deadline")
+		return append(common, "deployer", "bytecode", "fee0", "fee1", "fee2", "sender", "senderHead", "senderTruncate", "id", "deadline")
 	case "handover":
 		return append(common, "callAddr", "callPayload", "callAdd", "callDrop", "deadline", "gas")
 	default:
@@ -160,6 +160,20 @@ func c05Mutate(t *rapid.T, s *c05Spec, op string) {
 		s.fees[int(op[3]-'0')] = rapid.Uint64().Draw(t, "m.fee")
 	case "sender":
 		s.sender = rapid.SliceOfN(rapid.Byte(), 20, 20).Draw(t, "m.sender")
+	case "senderHead":
+		// a fee payer longer than 20 bytes (contract / derived account): change only its leading bytes
+		if len(s.sender) < 32 {
+			s.sender = append(make([]byte, 32-len(s.sender)), s.sender...)
+			s.sender[0] = 1
+		}
+		s.sender[rapid.IntRange(0, 11).Draw(t, "m.senderHeadIdx")] ^= byte(rapid.IntRange(1, 255).Draw(t, "m.senderHeadXor"))
+	case "senderTruncate":
+		// the 20-byte account equal to the tail of a 32-byte fee payer
+		if len(s.sender) == 32 {
+			s.sender = append([]byte(nil), s.sender[12:]...)
+		} else {
+			s.sender = append(rapid.SliceOfN(rapid.Byte(), 12, 12).Draw(t, "m.senderPrefix"), s.sender...)
+		}
 	case "id", "batchNonce":
 		s.id = rapid.Uint64Range(1, 1<<62).Draw(t, "m.id")
 	case "deadline":
